@@ -95,10 +95,10 @@ type Driver struct {
 	PersistFaults bool
 	// ReloadClause: if set, a just-persisted root that does not load is a violation of this clause
 	ReloadClause string
-	lowTarget         int
-	hiTarget          int
-	growing           bool
-	fullEvery         int
+	lowTarget    int
+	hiTarget     int
+	growing      bool
+	fullEvery    int
 	// weights may be tuned by the embedding monitor
 	WPersist, WReload, WClone int
 }
@@ -490,6 +490,9 @@ func (d *Driver) Persist() *mast.Root {
 	}
 	d.HadPersist = true
 	d.LastRoot = root
+	if root.Link != nil { // black-box fingerprint of the tree state: (root name, height, size)
+		d.C.Distinct("tree_states_persisted", fw.Mix(fw.StrHash(*root.Link), uint64(root.Height), root.Size))
+	}
 	if len(d.oldRoots) < 6 {
 		d.oldRoots = append(d.oldRoots, root)
 		d.oldModels = append(d.oldModels, d.M.Clone())
